@@ -106,6 +106,23 @@ pub fn twin_game(rec: &mut GameRecord, mut policy: Policy, max_turns: u32, mirro
         if a2 != b2 {
             viol(sink, rec, "rule_only_actions_not_images", format!("game-image={} twin={} board={}", a2.text(), b2.text(), sh.board.compact()));
         }
+        // the same comparison on the saturated twins of both states (the same states in games in which every
+        // position a turn-ending action could create began two earlier turns): they are images of each other too
+        if sh.step >= 1 && sh.fingerprint() % 4 == 0 {
+            let tg = crate::decoy::judged_twins(&g, 2).into_iter().next();
+            let th = crate::decoy::judged_twins(&h, 2).into_iter().next();
+            if let (Some((_, tg)), Some((_, th))) = (tg, th) {
+                if let (Ok(x), Ok(y)) = (observe(&tg), observe(&th)) {
+                    sink.count("saturated_twin_pairs_compared");
+                    let (a, b) = (img(&x.rep_codes), ActSet::from_codes(&y.rep_codes));
+                    if a != b || swap(x.term) != y.term {
+                        let only_g: Vec<String> = a.iter().filter(|c| !b.contains(*c)).map(code_text).collect();
+                        let only_h: Vec<String> = b.iter().filter(|c| !a.contains(*c)).map(code_text).collect();
+                        viol(sink, rec, "offered_actions_not_images", format!("[on the saturated twins of the two states] image-of-game-only=[{}] twin-only=[{}] results {} / {} board={} side={} step={}", only_g.join(" "), only_h.join(" "), term_text(x.term), term_text(y.term), sh.board.compact(), sh.gold, sh.step));
+                    }
+                }
+            }
+        }
         if q.rep_codes.len() != q.norep_codes.len() {
             st.withheld_states += 1;
             sink.distinct(mix(sh.fingerprint(), 11));
